@@ -65,6 +65,7 @@ ALPHABET = {
     'auth-plain-admin-as-nobody': ([b'AUTHENTICATE PLAIN', plain('ghost', 'root', 'pwroot')], lambda u: 'auth:1:1:-'),
     'auth-cancel': ([b'AUTHENTICATE PLAIN', b'*'], lambda u: 'auth:1:0:-'),
     'auth-badb64': ([b'AUTHENTICATE PLAIN', b'!!!notbase64'], lambda u: 'auth:1:0:-'),
+    'auth-badpad': ([b'AUTHENTICATE PLAIN', b'A'], lambda u: 'auth:1:0:-'),
     'auth-short': ([b'AUTHENTICATE PLAIN', base64.b64encode(b'onlyonefield')], lambda u: 'auth:1:0:-'),
     'auth-bogus-mech': ([b'AUTHENTICATE BOGUS'], lambda u: 'auth:0:0:-'),
     'auth-login-ok': ([b'AUTHENTICATE LOGIN', base64.b64encode(b'bob'), base64.b64encode(b'pwbob')], lambda u: 'auth:1:1:2'),
